@@ -140,21 +140,23 @@ def find(
     oldest = after > datetime(1980, 1, 1, tzinfo=UTC) and limit is not None
     one = timedelta(seconds=1)
     oneday = timedelta(days=1)
-    while (limit is None or len(entries) < limit) and before > after:
+    # walk the journal backwards one calendar day at a time; the window itself
+    # (after, before) never moves, only the day being visited does
+    day = before.astimezone(UTC)
+    first = after.astimezone(UTC).date()
+    while (limit is None or len(entries) < limit) and day.date() >= first:
         journal = os.path.join(
-            dawgie.context.data_dbs, 'chronicles', str(before.year)
+            dawgie.context.data_dbs, 'chronicles', str(day.year)
         )
         if os.path.isdir(journal):
-            journal = os.path.join(journal, f'{before.month:02d}')
+            journal = os.path.join(journal, f'{day.month:02d}')
             if os.path.isdir(journal):
-                journal = os.path.join(journal, f'{before.day:02d}')
+                journal = os.path.join(journal, f'{day.day:02d}')
                 if os.path.isdir(journal):
                     entries.extend(_load(after, before, journal, succeeded))
-                before = before - oneday
+                day = day - oneday
             else:
-                before = (
-                    datetime(before.year, before.month, 1, tzinfo=UTC) - one
-                )
+                day = datetime(day.year, day.month, 1, tzinfo=UTC) - one
         else:
-            before = datetime(before.year, 1, 1, tzinfo=UTC) - one
+            day = datetime(day.year, 1, 1, tzinfo=UTC) - one
     return entries[-limit:] if oldest else entries[:limit]
